@@ -755,6 +755,18 @@ def strided_view_possible(pos, shape) -> bool:
     return True
 
 
+def k_order_axes(a: SArr):
+    """axis order of NumPy's order='K': axes by decreasing |stride| (ties: as they are); each axis keeps its own direction.
+    A length-1 axis has no stride of its own: it stays in front of the axes that follow it."""
+    pos = mem_positions(a)
+    st = _strides(a.shape)
+    stride = [abs(pos[st[k]] - pos[0]) if a.shape[k] > 1 else None for k in range(a.ndim)]
+    for k in range(a.ndim - 1, -1, -1):
+        if stride[k] is None:
+            stride[k] = max([x for x in stride[k + 1:] if x is not None] or [0])
+    return sorted(range(a.ndim), key=lambda k: (-stride[k], k))
+
+
 def keep_layout(like: SArr, new: SArr) -> SArr:
     """order='K' of np.*_like / np.copy: the new array gets the axis order in memory that `like` has"""
     if like.ndim < 2 or like.size <= 1 or like.shape != new.shape:
@@ -762,9 +774,7 @@ def keep_layout(like: SArr, new: SArr) -> SArr:
     pos = mem_positions(like)
     if len(set(pos)) != len(pos):
         return new              # broadcast views: NumPy falls back to C order
-    st = _strides(like.shape)
-    stride = [abs(pos[st[k]] - pos[0]) if like.shape[k] > 1 else 0 for k in range(like.ndim)]
-    perm = sorted(range(like.ndim), key=lambda k: (-stride[k], k))      # slowest axis first
+    perm = k_order_axes(like)      # slowest axis first
     if perm == list(range(like.ndim)):
         return new
     base = transpose(new, perm).copy()
